@@ -54,6 +54,28 @@ var c16Instants = []int64{
 
 func genC16Enc(g *G, count int) {
 	r := g.R
+	// every combination of (unpublished, blinded) flags with every transient key type — the inner LeaseSet2 of an
+	// encrypted leaseset is read back by ReadLeaseSet2, whose framing depends on both — on an Ed25519 destination
+	g.in("enc-roundtrip-flag-x-transient")
+	for _, fl := range []int{0, 2, 4, 6} {
+		for _, tt := range []int{-1, 7, 2, 0, 1, 11} {
+			if g.quick() && tt == 0 && fl != 4 {
+				continue // DSA key generation is slow: once, with the blinded flag
+			}
+			id := g.newIdentity(7, 4, false, nil)
+			var tr *signer
+			if tt >= 0 {
+				tr = g.newSigner(tt)
+			}
+			forceLS2Flags = fl
+			wasValid := g.valid
+			g.valid = true
+			body, sg := g.encLS2Body(id, tr, "")
+			g.valid = wasValid
+			forceLS2Flags = -1
+			g.emit("!encRoundtrip", hx(cat(body, sg.sign(cat([]byte{3}, body)))), hx(g.x25519Private()), hx(r.bytes(32)), "1")
+		}
+	}
 	for i := 0; i < count; i++ {
 		g.in("enc-roundtrip")
 		cookie := r.bytes(32)
